@@ -8,6 +8,9 @@ import Cvss.Spec.V3
 import Cvss.Spec.V4
 import Cvss.Spec.Grammar
 import Cvss.Spec.Severity
+import Cvss.Spec.RegexPatterns
+import Cvss.Spec.SchemaTerms
+import Cvss.Model.Json
 namespace Cvss.Spec
 open Cvss Cvss.Model
 
@@ -52,6 +55,27 @@ def handle : List String → String
     else match t.toNat? with
       | some n => String.ofList (Severity.rating34 n)
       | none => "bad-op"
+  | ["schema", v, so, mi, s] =>   -- failing schema locations of as_json(sort, minimal)
+    let ver : Option Ver := if v = "2" then some .v2 else if v = "3" then some .v3 else if v = "4" then some .v4 else none
+    match ver, decodeStr s with
+    | some ver, some str =>
+      match construct ver str with
+      | .error e => "err\t" ++ e.name
+      | .ok o =>
+        let sch := match o with
+          | .o2 _ => Schema.schema20
+          | .o3 x => if x.minor = 0 then Schema.schema30 else Schema.schema31
+          | .o4 _ => Schema.schema40
+        match o.asJson (so = "1") (mi = "1") with
+        | none => "KEYERROR"
+        | some j => "ok\t" ++ ",".intercalate ((Schema.failures sch j).map String.ofList)
+    | _, _ => "bad-op"
+  | ["re", k, s] =>
+    let p : Option Regex.Re := if k = "2" then some Regex.pattern20 else if k = "3.0" then some Regex.pattern30
+      else if k = "3.1" then some Regex.pattern31 else if k = "4" then some Regex.pattern40 else none
+    match p, decodeStr s with
+    | some p, some str => if Regex.fullMatch p str then "1" else "0"
+    | _, _ => "bad-op"
   | _ => "bad-op"
 
 end Cvss.Spec
